@@ -90,6 +90,16 @@ def case_strategy(draw):
                 break
             i = draw(st.integers(0, len(d[1]) - 1))
             variations.append((None, i, draw(gen.value_for(d[1][i][0], 1, types))))
+        # the same 32-bit number as an address of the other family (1.2.3.4 / ::1.2.3.4): different addresses
+        for i, (t, _) in enumerate(d[1]):
+            v = spec.p["vals"][i]
+            if t in ("net.ipaddress", "net.IPAddress") and isinstance(v, str):
+                import ipaddress as _ipa
+
+                a = _ipa.ip_address(v)
+                if int(a) < 2**32:
+                    twin = str(_ipa.IPv6Address(int(a))) if a.version == 4 else str(_ipa.IPv4Address(int(a)))
+                    variations.append((None, i, twin))
     ignore_mode = draw(st.sampled_from(["none", "varied", "other", "meta", "ctx-varied", "ctx-nested", "ctx-exception",
                                         "ctx-exception"]))
     return {"spec": spec, "variations": variations, "ignore": ignore_mode,
@@ -274,7 +284,34 @@ def check(case, ctx):
             else:
                 kind = case.get("exc", "KeyError")
                 mode = "ctx-exception:" + kind
-                if kind.startswith("generator-"):
+                if kind.startswith("decorator"):
+                    # the scope in its decorator form: one decorator object, entered again while it is active
+                    deco = ignore_fields_for_comparison(ign)
+                    seen_inside = []
+
+                    @deco
+                    def inner(depth):
+                        seen_inside.append(safe_eq(r, v, where + " [inside decorated call]"))
+                        if depth and kind != "decorator":
+                            if kind == "decorator-on-caller-and-callee":
+                                callee()
+                            else:
+                                try:
+                                    inner(depth - 1)
+                                except KeyError:
+                                    pass
+                        if kind == "decorator-recursive-error" and not depth:
+                            raise KeyError("innermost call ends with an error")
+
+                    @deco
+                    def callee():
+                        seen_inside.append(safe_eq(r, v, where + " [inside decorated callee]"))
+
+                    inner(2)
+                    if expect_equal and not all(seen_inside):
+                        raise Violation("ignored-field-still-compared", "%s ignored (%s) but records unequal inside the "
+                                        "decorated call" % (where, mode))
+                elif kind.startswith("generator-"):
                     def holder():
                         with ignore_fields_for_comparison(ign):
                             yield 1
@@ -311,7 +348,7 @@ def check(case, ctx):
         set_ignored_fields_for_comparison(set())
 
 
-SCOPE_ERRORS = ["KeyError", "ValueError", "custom-Exception", "StopIteration", "KeyboardInterrupt", "SystemExit",
+SCOPE_ERRORS = ["decorator", "decorator-recursive", "decorator-recursive-error", "decorator-on-caller-and-callee", "KeyError", "ValueError", "custom-Exception", "StopIteration", "KeyboardInterrupt", "SystemExit",
                 "GeneratorExit", "custom-BaseException", "CancelledError", "generator-close", "generator-throw"]
 
 
